@@ -526,7 +526,10 @@ func (g *Gen) DictCase() *Case {
 func (g *Gen) DocsMatchingCase() *Case {
 	c := &Case{Family: "docsmatching"}
 	r := g.R
-	n := 1 + r.Intn(25)
+	n := r.Intn(26)
+	if n == 0 {
+		c.tag("zero_documents")
+	}
 	ops, slot, b, _ := g.subject(c, BatchOpts{NDocs: n})
 	fts := BatchTerms(b)
 	for i := 0; i < 8; i++ {
@@ -540,6 +543,9 @@ func (g *Gen) DocsMatchingCase() *Case {
 		}
 		if ts == nil {
 			ts = []FT{}
+		}
+		if i == 0 { // _id is known to every segment, also to one without documents
+			ts = append(ts, FT{"_id", []byte("no-such-id")})
 		}
 		fieldsSeen := map[string]bool{}
 		unknown := false
